@@ -37,8 +37,8 @@ int main() {
               apis[es].expect_kind(e, entry, fn, file, line);
               printf("%d %d %d pass\n", calls, matches, same_name);
             } catch (const phosg::expectation_failed& x) {
-              bool exact = (typeid(x) == typeid(phosg::expectation_failed));
-              bool site_ok = exact && x.file && !strcmp(x.file, file) && x.line == line;
+              // a class derived from expectation_failed IS-A expectation_failed: the handler above decides
+              bool site_ok = x.file && !strcmp(x.file, file) && x.line == line;
               std::string site = std::string(file) + ":" + std::to_string(line);
               bool what_ok = strstr(x.what(), site.c_str()) != nullptr;
               printf("%d %d %d fail %llu %d %d\n", calls, matches, same_name, (unsigned long long)x.line, site_ok, what_ok);
